@@ -95,9 +95,14 @@ PROPS = {
     ),
     "C10": dict(
         level="proof",
+        extra_lean_targets=["LdpcV.Props.C10All"],
+        extra_prop_files=["LdpcV/Props/C10All.lean"],
         trusted_base=[KERNEL, CORR,
                       "arithmetic scratch vectors (phis/tanhs/minstars) are not in the model (pure `Arith` record); their statelessness is covered by the "
-                      "implementation-vs-implementation comparison (reused object vs fresh object, exact, all 36 names) and, for the 20 8-bit names, by the exact model"],
+                      "implementation-vs-implementation comparison (reused object vs fresh object, exact, all 36 names) and, for the 20 8-bit names, by the exact model",
+                      "C10All: every one of the 36 names has an arithmetic model (Factory.Impl.model: exact for the 8-bit names; the float formulas of "
+                      "lean/LdpcV/Model/ArithFloat.lean over an arbitrary scalar record for the others, with the partial_cmp().unwrap() panic of float A-Min* on NaN); the "
+                      "float models are tied to the code numerically (C04/C05), not bit for bit"],
         rule=("all 36 names x 40 (1200 thorough) histories of 2-20 decode calls on ONE decoder object mixing successes, failures, limits {0,1,2,3,5,50}, all LLR "
               "classes, matrices incl. the mixed-degree family (high-degree then low-degree checks); every call's result is compared with a freshly built decoder's "
               "result for the same arguments (exact) and, for the 20 8-bit names, with the model run as one history; non-trivial = the history contains both a "
